@@ -601,7 +601,144 @@ func checkRecords(ts *TypeSpec, tree, exp *Node, dec interface{}, where string, 
 	if zip {
 		noteRatio(typ, rb, len(rb.B))
 	}
+	if len(got) > 0 && len(got) <= 300 {
+		if !recordsAgain(ts, rb, exp, dec, got, where, detail) {
+			return false
+		}
+	}
 	return true
+}
+
+// recordsAgain: what a container hands out belongs to the caller, and what it hands out next
+// depends on the container as it is THEN (added after seeded change C03r6-3: GetRecords kept
+// the decoded inner packs and returned the same objects again). The records returned by the
+// first call are overwritten by the caller (every settable exported field, byte slices in
+// place); a second call must still return the records that were put in. For the zip
+// containers the decoded container is then given another identity (project code, object id,
+// kind, node) and a third call must return inner packs stamped with THAT identity.
+func recordsAgain(ts *TypeSpec, rb *Node, exp *Node, dec interface{}, first []interface{}, where string, detail func(map[string]interface{}) func() map[string]interface{}) bool {
+	typ := ts.Name
+	zip := typ == "ZipPack" || typ == "LogSinkZipPack"
+	for _, x := range first {
+		scribbleObj(reflect.ValueOf(x), 0)
+	}
+	var again []interface{}
+	if p := vlib.Catch(func() { again = getRecords(typ, dec) }); p != nil {
+		fail(typ+".GetRecords:second-call-differs", fmt.Sprintf("%s: a second GetRecords() of the decoded %s panicked after the caller had modified the records the first call returned: %v", where, typ, p), detail(nil))
+		return false
+	}
+	if len(again) != len(first) {
+		fail(typ+".GetRecords:second-call-differs", fmt.Sprintf("%s: a second GetRecords() of the decoded %s returns %d records, the first returned %d", where, typ, len(again), len(first)), detail(nil))
+		return false
+	}
+	for i, x := range again {
+		want := rb.Recs[i]
+		if x == nil || reflect.ValueOf(x).IsNil() {
+			fail(typ+".GetRecords:second-call-differs", fmt.Sprintf("%s: record %d of a second GetRecords() is nil", where, i), detail(nil))
+			return false
+		}
+		w := expected(want)
+		if zip {
+			if typeNameOf(x) != want.T {
+				fail(typ+".GetRecords:second-call-differs", fmt.Sprintf("%s: inner pack %d of a second GetRecords() is a %s, a %s was put in", where, i, typeNameOf(x), want.T), detail(nil))
+				return false
+			}
+			w = stamp(w, exp)
+		}
+		var g *Node
+		if p := vlib.Catch(func() { g = extractObj(want.T, x) }); p != nil {
+			fail(typ+".GetRecords:second-call-differs", fmt.Sprintf("%s: walking record %d of a second GetRecords() panicked: %v", where, i, p), detail(nil))
+			return false
+		}
+		if d := diffNode(w, g, "", ""); d != nil {
+			fail(typ+".GetRecords:second-call-differs", fmt.Sprintf("%s: %s: the caller modified the records returned by GetRecords(); a second GetRecords() returns record %d (%s) differing from what was put in at %s: %s", where, typ, i, want.T, d.Path, d.What),
+				detail(map[string]interface{}{"record_expected": renderStr(w, 3000), "record_returned_by_second_call": renderStr(g, 3000)}))
+			return false
+		}
+	}
+	c.Count("record_lists_fetched_again_after_caller_modified_the_first_result", 1)
+	if !zip {
+		return true
+	}
+	// another identity for the decoded container
+	cv := reflect.ValueOf(dec)
+	for cv.Kind() == reflect.Ptr {
+		cv = cv.Elem()
+	}
+	old, _ := headerOf(dec)
+	neu := [4]int64{old[0] ^ 0x5a5a5a5a5a, int64(int32(old[1]) ^ 0x1234567), int64(int32(old[2]) + 77), int64(int32(old[3]) ^ 0x55aa)}
+	names := []string{"Pcode", "Oid", "Okind", "Onode"}
+	set := func(h [4]int64) {
+		for i, n := range names {
+			cv.FieldByName(n).SetInt(h[i])
+		}
+	}
+	set(neu)
+	defer set(old)
+	neu, _ = headerOf(dec) // as stored (field widths)
+	var third []interface{}
+	if p := vlib.Catch(func() { third = getRecords(typ, dec) }); p != nil {
+		fail(typ+".Records:records-not-stamped/after-identity-change", fmt.Sprintf("%s: GetRecords() panicked after the decoded container was given another identity: %v", where, p), detail(nil))
+		return false
+	}
+	if len(third) != len(first) {
+		fail(typ+".GetRecords:second-call-differs", fmt.Sprintf("%s: GetRecords() after an identity change returns %d records, the first call returned %d", where, len(third), len(first)), detail(nil))
+		return false
+	}
+	for i, x := range third {
+		if h, ok := headerOf(x); ok && h != neu {
+			fail(typ+".Records:records-not-stamped/after-identity-change", fmt.Sprintf("%s: the decoded %s was given pcode/oid/okind/onode %v (before: %v); inner pack %d returned by the next GetRecords() carries %v", where, typ, neu, old, i, h), detail(nil))
+			return false
+		}
+	}
+	c.Count("zip_containers_fetched_again_after_identity_change", 1)
+	return true
+}
+
+// scribbleObj overwrites everything the caller can reach in a returned object through its
+// exported fields: numbers, strings, bools, byte and number slices in place.
+func scribbleObj(v reflect.Value, depth int) {
+	if depth > 4 || !v.IsValid() {
+		return
+	}
+	switch v.Kind() {
+	case reflect.Ptr, reflect.Interface:
+		if !v.IsNil() {
+			scribbleObj(v.Elem(), depth+1)
+		}
+	case reflect.Struct:
+		for i := 0; i < v.NumField(); i++ {
+			f := v.Field(i)
+			if !f.CanSet() {
+				continue
+			}
+			scribbleObj(f, depth+1)
+		}
+	case reflect.Int, reflect.Int8, reflect.Int16, reflect.Int32, reflect.Int64:
+		if v.CanSet() {
+			v.SetInt(^v.Int() ^ 0x2b)
+		}
+	case reflect.Uint, reflect.Uint8, reflect.Uint16, reflect.Uint32, reflect.Uint64:
+		if v.CanSet() {
+			v.SetUint(^v.Uint() ^ 0x2b)
+		}
+	case reflect.Float32, reflect.Float64:
+		if v.CanSet() {
+			v.SetFloat(-12345.5)
+		}
+	case reflect.Bool:
+		if v.CanSet() {
+			v.SetBool(!v.Bool())
+		}
+	case reflect.String:
+		if v.CanSet() {
+			v.SetString("scribbled-by-the-caller")
+		}
+	case reflect.Slice:
+		for i := 0; i < v.Len(); i++ {
+			scribbleObj(v.Index(i), depth+1)
+		}
+	}
 }
 
 func sizeClass(n int) string {
